@@ -499,3 +499,86 @@ class Gen:
         return self.program
 
 
+
+
+SEMIRINGS = [
+    # (sum op, product op, family for data)
+    ("add", "mul", "ring"),
+    ("add", "mul", "tropical"),
+    ("logaddexp", "add", "log"),
+    ("max", "mul", "tropical"),
+    ("min", "mul", "tropical"),
+    ("max", "add", "log"),
+    ("min", "add", "log"),
+    ("or_", "and_", "bool"),
+]
+
+
+def gen_semiring(r):
+    """Nested sums of products: 3-5 factors over overlapping inputs combined by
+    the product op (in a random association order), optionally an index
+    substitution, then reduced by the sum op over shared variables in one or
+    two stages, optionally combined with a further factor.  This is the shape of
+    term that normalize / unfold / optimize / the n-ary eager Contraction rules
+    are written for."""
+    sum_op, prod_op, family = r.choice(SEMIRINGS)
+    g = Gen(r, family=family, max_event=0, real_vars=False)
+    k = r.randint(3, 5)
+    shared = r.sample(NAMES, r.randint(1, 2))
+    leaves = []
+    for _ in range(k):
+        names = set(n for n in shared if r.random() < 0.8)
+        for n in NAMES:
+            if n not in shared and r.random() < 0.3:
+                names.add(n)
+        names = sorted(names)
+        r.shuffle(names)
+        inputs = [[n, g.sizes[n]] for n in names]
+        shape = [sz for _, sz in inputs]
+        n_el = int(np.prod(shape)) if shape else 1
+        kind = g.fam["data"]
+        out = g.emit({"op": "tensor", "inputs": inputs, "shape": shape, "dtype": "bool" if kind == "bool" else "float", "data": g.data(kind, n_el)})
+        if out:
+            leaves.append(out)
+    if len(leaves) < 2:
+        return g.generate(4), g.family_name
+    # product in a random association order
+    pool = list(leaves)
+    while len(pool) > 1:
+        i = r.randrange(len(pool) - 1) if r.random() < 0.7 else 0
+        a, b = pool[i], pool[i + 1]
+        out = g.emit({"op": "binary", "fn": prod_op, "a": a, "b": b})
+        if out is None:
+            break
+        pool[i : i + 2] = [out]
+    term = pool[0]
+    if r.random() < 0.3:
+        t = g.types[term]
+        cand = [n for n in t.inputs]
+        if cand:
+            n = r.choice(cand)
+            idx = g._index_value(t.inputs[n].size)
+            if idx:
+                out = g.emit({"op": "subs", "a": term, "subs": [[n, ["val", idx]]]})
+                term = out or term
+    for stage in range(r.choice([1, 1, 2])):
+        t = g.types[term]
+        cand = [n for n, d in t.inputs.items() if d.dtype != "real"]
+        if not cand:
+            break
+        names = r.sample(cand, r.randint(1, len(cand)))
+        rv = [[n, t.inputs[n].size] for n in names]
+        if r.random() < 0.15:
+            extra = [n for n in NAMES if n not in t.inputs]
+            if extra:
+                rv.append([extra[0], g.sizes[extra[0]]])
+        out = g.emit({"op": "reduce", "fn": sum_op, "a": term, "vars": rv})
+        if out is None:
+            break
+        term = out
+        if r.random() < 0.4:
+            other = g.leaf_tensor()
+            if other:
+                out = g.emit({"op": "binary", "fn": r.choice([prod_op, sum_op]) if sum_op not in ("logaddexp",) else prod_op, "a": term, "b": other})
+                term = out or term
+    return g.program, g.family_name
